@@ -1,4 +1,455 @@
-import PintModel.Model.Enable
+import PintModel.Model.LabelFlow
+/-!
+# C04 — a "non-existent label" template report is never a false positive
+
+`analyse_sound`: for every expression of the modelled fragment (any depth) and every label universe, every label set
+that a series returned by Prometheus can carry (`possible`, the may-semantics validated against the real engine) is
+accounted for by some source pint derives (`analyse`, validated against the real `LabelsSource`): that source can have
+every label of the set.  `C04_single_branch`: when pint derives a single source and says a label cannot be there, no
+returned series carries it — the "non-existent label" report is not a false positive.
+
+Liveness (`IsDead`) is outside this model: the general clause of C04 ("some *live* branch") holds up to the
+dead-code findings recorded for C12.
+-/
 namespace Pint.Props.C04
-theorem placeholder : True := trivial
+open Pint.LabelFlow
+
+/-! ## list helpers -/
+
+theorem mem_appendTo (dst vs : LS) (x : String) : x ∈ appendTo dst vs ↔ x ∈ dst ∨ x ∈ vs := by
+  unfold appendTo
+  induction vs generalizing dst with
+  | nil => simp
+  | cons v vs ih =>
+    simp only [List.foldl_cons]
+    rw [ih]
+    by_cases hd : dst.contains v = true
+    · have hv : v ∈ dst := by simpa using hd
+      rw [if_pos hd]
+      simp only [List.mem_cons]
+      constructor
+      · rintro (h | h)
+        · exact Or.inl h
+        · exact Or.inr (Or.inr h)
+      · rintro (h | h | h)
+        · exact Or.inl h
+        · exact Or.inl (h ▸ hv)
+        · exact Or.inr h
+    · rw [if_neg hd]
+      simp only [List.mem_append, List.mem_cons, List.not_mem_nil, or_false]
+      constructor
+      · rintro ((h | h) | h)
+        · exact Or.inl h
+        · exact Or.inr (Or.inl h)
+        · exact Or.inr (Or.inr h)
+      · rintro (h | h | h)
+        · exact Or.inl (Or.inl h)
+        · exact Or.inl (Or.inr h)
+        · exact Or.inr h
+
+theorem mem_removeFrom (sl vs : LS) (x : String) : x ∈ removeFrom sl vs ↔ x ∈ sl ∧ x ∉ vs := by
+  simp [removeFrom, List.mem_filter]
+
+/-- `CanHaveLabel` as a proposition -/
+def CanHave (s : Src) (n : String) : Prop := n ∉ s.excl ∧ (n ∈ s.incl ∨ n ∈ s.guar ∨ s.fixed = false)
+
+theorem canHave_iff (s : Src) (n : String) : canHave s n = true ↔ CanHave s n := by
+  simp [canHave, CanHave, or_assoc]
+
+/-- a source accounts for a label set -/
+def Accounts (s : Src) (ls : LS) : Prop := ∀ n ∈ ls, CanHave s n
+
+theorem accounts_iff (s : Src) (ls : LS) : accounts s ls = true ↔ Accounts s ls := by
+  simp [accounts, Accounts, canHave_iff]
+
+theorem accounts_subset {s : Src} {ls ls' : LS} (h : Accounts s ls) (hs : ∀ n ∈ ls', n ∈ ls) : Accounts s ls' :=
+  fun n hn => h n (hs n hn)
+
+/-! ## the transfer functions only ever add possibilities for the labels they talk about -/
+
+theorem canHave_includeLabel {s : Src} {ns : LS} {n : String} (h : CanHave s n ∨ n ∈ ns) : CanHave (includeLabel s ns) n := by
+  simp only [CanHave, includeLabel, mem_removeFrom, mem_appendTo]
+  rcases h with h | h
+  · exact ⟨fun hh => h.1 hh.1, by rcases h.2 with h2 | h2 | h2 <;> simp [h2]⟩
+  · exact ⟨fun hh => hh.2 h, Or.inl (Or.inr h)⟩
+
+theorem canHave_guaranteeLabel {s : Src} {ns : LS} {n : String} (h : CanHave s n ∨ n ∈ ns) : CanHave (guaranteeLabel s ns) n := by
+  simp only [CanHave, guaranteeLabel, mem_removeFrom, mem_appendTo]
+  rcases h with h | h
+  · exact ⟨fun hh => h.1 hh.1, by rcases h.2 with h2 | h2 | h2 <;> simp [h2]⟩
+  · exact ⟨fun hh => hh.2 h, Or.inr (Or.inl (Or.inr h))⟩
+
+theorem canHave_excludeLabel {s : Src} {ns : LS} {n : String} (h : CanHave s n) (hn : n ∉ ns) : CanHave (excludeLabel s ns) n := by
+  simp only [CanHave, excludeLabel, mem_removeFrom, mem_appendTo]
+  refine ⟨fun hh => hh.elim h.1 hn, ?_⟩
+  rcases h.2 with h2 | h2 | h2
+  · exact Or.inl ⟨h2, hn⟩
+  · exact Or.inr (Or.inl ⟨h2, hn⟩)
+  · exact Or.inr (Or.inr h2)
+
+theorem includeMatching_fixed (s : Src) (ns : LS) : (includeMatching s ns).fixed = s.fixed := by
+  unfold includeMatching
+  induction ns generalizing s with
+  | nil => rfl
+  | cons x xs ih =>
+    simp only [List.foldl_cons]
+    by_cases hc : canHave s x = true
+    · rw [if_pos hc, ih]; rfl
+    · rw [if_neg hc, ih]
+
+theorem canHave_includeMatching {s : Src} (ns : LS) {n : String} (h : CanHave s n) :
+    CanHave (includeMatching s ns) n ∧ (n ∈ ns → n ∈ (includeMatching s ns).incl) := by
+  unfold includeMatching
+  induction ns generalizing s with
+  | nil => exact ⟨h, fun hh => by simp at hh⟩
+  | cons x xs ih =>
+    simp only [List.foldl_cons]
+    by_cases hc : canHave s x = true
+    · rw [if_pos hc]
+      have h1 : CanHave (includeLabel s [x]) n := canHave_includeLabel (Or.inl h)
+      have := ih h1
+      refine ⟨this.1, fun hn => ?_⟩
+      rcases List.mem_cons.mp hn with rfl | hn'
+      · -- n = x was just included and stays included
+        have hin : n ∈ (includeLabel s [n]).incl := by simp [includeLabel, mem_appendTo]
+        clear this ih
+        -- inclusion only grows along the fold
+        have grow : ∀ (t : Src) (ys : LS), n ∈ t.incl → n ∈ (ys.foldl (fun s n => if canHave s n = true then includeLabel s [n] else s) t).incl := by
+          intro t ys
+          induction ys generalizing t with
+          | nil => intro ht; exact ht
+          | cons y ys ihy =>
+            intro ht
+            simp only [List.foldl_cons]
+            by_cases hcy : canHave t y = true
+            · rw [if_pos hcy]; exact ihy _ (by simp [includeLabel, mem_appendTo, ht])
+            · rw [if_neg hcy]; exact ihy _ ht
+        exact grow _ xs hin
+      · exact this.2 hn'
+    · rw [if_neg hc]
+      have := ih h
+      refine ⟨this.1, fun hn => ?_⟩
+      rcases List.mem_cons.mp hn with rfl | hn'
+      · exact absurd ((canHave_iff s n).mpr h) hc
+      · exact this.2 hn'
+
+theorem canHave_maybeInclude {s : Src} (g : LS) {n : String} (h : CanHave s n) :
+    CanHave (maybeInclude s g) n ∧ (n ∈ g → n ∈ (maybeInclude s g).incl) ∧ (maybeInclude s g).excl = s.excl := by
+  unfold maybeInclude
+  by_cases ha : (g.any fun n => !s.excl.contains n) = true
+  · rw [if_pos ha]
+    refine ⟨⟨h.1, ?_⟩, fun hn => by simp [mem_appendTo, hn], rfl⟩
+    rcases h.2 with h2 | h2 | h2
+    · exact Or.inl (by simp [mem_appendTo, h2])
+    · exact Or.inr (Or.inl h2)
+    · exact Or.inr (Or.inr h2)
+  · rw [if_neg ha]
+    refine ⟨h, fun hn => ?_, rfl⟩
+    -- every name of g is excluded, but n is not
+    have hall : ∀ x ∈ g, x ∈ s.excl := by
+      intro x hx
+      have hfalse : (g.any fun n => !s.excl.contains n) = false := by
+        cases hb : (g.any fun n => !s.excl.contains n) with
+        | false => rfl
+        | true => exact absurd hb ha
+      have := List.any_eq_false.mp hfalse x hx
+      simpa using this
+    exact absurd (hall n hn) h.1
+
+theorem canHave_aggBySrc {s : Src} (g : LS) {n : String} (h : CanHave s n) (hn : n ∈ g) : CanHave (aggBySrc g s) n := by
+  unfold aggBySrc
+  have hne : g.isEmpty = false := by cases g with | nil => simp at hn | cons _ _ => rfl
+  rw [if_neg (by simp [hne])]
+  have hg : g.contains n = true := by simpa using hn
+  by_cases hf : s.fixed = true
+  · rw [if_pos hf]
+    simp only [CanHave, restrictTo, List.mem_filter]
+    refine ⟨h.1, ?_⟩
+    rcases h.2 with h2 | h2 | h2
+    · exact Or.inl ⟨h2, hg⟩
+    · exact Or.inr (Or.inl ⟨h2, hg⟩)
+    · rw [hf] at h2; exact absurd h2 (by simp)
+  · rw [if_neg hf]
+    have hm := canHave_maybeInclude (s := s) g h
+    simp only [CanHave, restrictTo, List.mem_filter]
+    refine ⟨?_, Or.inl ⟨hm.2.1 hn, hg⟩⟩
+    rw [hm.2.2]; exact h.1
+
+theorem canHave_excludeMetricName {s : Src} (by_ : Bool) (g : LS) {n : String} (h : CanHave s n)
+    (hn : n ≠ nameL ∨ (by_ = true ∧ nameL ∈ g)) : CanHave (excludeMetricName s by_ g) n := by
+  unfold excludeMetricName
+  by_cases hc : (by_ && g.contains nameL && canHave s nameL) = true
+  · rw [if_pos hc]; exact h
+  · rw [if_neg hc]
+    rcases hn with hn | ⟨hb, hg⟩
+    · exact canHave_excludeLabel h (by simp [hn])
+    · by_cases hnn : n = nameL
+      · subst hnn
+        have : canHave s nameL = true := (canHave_iff s nameL).mpr h
+        simp [hb, hg, this] at hc
+      · exact canHave_excludeLabel h (by simp [hnn])
+
+theorem canHave_reguarantee {s : Src} {n : String} (h : CanHave s n) : CanHave (reguarantee s) n := by
+  unfold reguarantee
+  generalize s.selGuar = ns
+  induction ns generalizing s with
+  | nil => exact h
+  | cons x xs ih =>
+    simp only [List.foldl_cons]
+    by_cases hc : canHave s x = true
+    · rw [if_pos hc]; exact ih (canHave_guaranteeLabel (Or.inl h))
+    · rw [if_neg hc]; exact ih h
+
+/-! ## soundness of the analysis -/
+
+theorem mem_subsets : ∀ (l ls : LS), ls ∈ subsets l → ∀ n ∈ ls, n ∈ l
+  | [], ls, h, n, hn => by simp [subsets] at h; subst h; simp at hn
+  | x :: xs, ls, h, n, hn => by
+    simp only [subsets, List.mem_append, List.mem_map] at h
+    rcases h with h | ⟨t, ht, rfl⟩
+    · exact List.mem_cons_of_mem _ (mem_subsets xs ls h n hn)
+    · rcases List.mem_cons.mp hn with rfl | hn'
+      · exact List.mem_cons_self
+      · exact List.mem_cons_of_mem _ (mem_subsets xs t ht n hn')
+
+theorem mem_withOrWithoutName {L : List LS} {ls : LS} (h : ls ∈ withOrWithoutName L) : ∃ ls' ∈ L, ∀ n ∈ ls, n ∈ ls' := by
+  simp only [withOrWithoutName, List.mem_append, List.mem_map] at h
+  rcases h with h | ⟨t, ht, rfl⟩
+  · exact ⟨ls, h, fun _ hn => hn⟩
+  · exact ⟨t, ht, fun n hn => (List.mem_filter.mp hn).1⟩
+
+theorem selSrc_excl (ms : List Matcher) (n : String) :
+    n ∈ (selSrc ms).excl ↔ ∃ m ∈ ms, m.kind = .eqEmpty ∧ m.label = n := by
+  simp only [selSrc, excludeLabel, mem_appendTo, List.mem_map, List.mem_filter, List.not_mem_nil, false_or]
+  constructor
+  · rintro ⟨m, ⟨hm, hk⟩, hl⟩
+    exact ⟨m, hm, by simpa using hk, hl⟩
+  · rintro ⟨m, hm, hk, hl⟩
+    exact ⟨m, ⟨hm, by simp [hk]⟩, hl⟩
+
+theorem selSrc_fixed (ms : List Matcher) : (selSrc ms).fixed = false := rfl
+
+theorem absent_fold_canHave (eqs : LS) : ∀ (s : Src), (∀ n, CanHave s n → True) →
+    ∀ n ∈ eqs, CanHave (eqs.foldl (fun s n => guaranteeLabel (includeLabel s [n]) [n]) s) n := by
+  induction eqs with
+  | nil => intro _ _ n hn; simp at hn
+  | cons x xs ih =>
+    intro s _ n hn
+    simp only [List.foldl_cons]
+    -- once a label can be there, the rest of the fold keeps it
+    have keep : ∀ (ys : LS) (t : Src), CanHave t n → CanHave (ys.foldl (fun s n => guaranteeLabel (includeLabel s [n]) [n]) t) n := by
+      intro ys
+      induction ys with
+      | nil => intro t ht; exact ht
+      | cons y ys ihy =>
+        intro t ht
+        simp only [List.foldl_cons]
+        exact ihy _ (canHave_guaranteeLabel (Or.inl (canHave_includeLabel (Or.inl ht))))
+    rcases List.mem_cons.mp hn with rfl | hn'
+    · exact keep xs _ (canHave_guaranteeLabel (Or.inr (by simp)))
+    · exact ih _ (fun _ _ => trivial) n hn'
+
+/-- **C04, soundness**: every label set a returned series can carry is accounted for by one of pint's sources. -/
+theorem analyse_sound (U : LS) : ∀ (e : Expr), wf e = true → ∀ ls ∈ possible U e, ∃ s ∈ analyse e, Accounts s ls := by
+  intro e
+  induction e with
+  | sel ms =>
+    intro _ ls h
+    simp only [possible, List.mem_filter, List.mem_map] at h
+    obtain ⟨_, hok⟩ := h
+    refine ⟨selSrc ms, by simp [analyse], fun n hn => ⟨?_, Or.inr (Or.inr (selSrc_fixed ms))⟩⟩
+    intro hex
+    obtain ⟨m, hm, hk, hl⟩ := (selSrc_excl ms n).mp hex
+    have := List.all_eq_true.mp hok m hm
+    simp only [hk] at this
+    subst hl
+    exact absurd hn (by simpa using this)
+  | aggBy g e ih =>
+    intro hw ls h
+    simp only [possible, List.mem_map] at h
+    obtain ⟨ls', hls', rfl⟩ := h
+    obtain ⟨s, hs, hacc⟩ := ih (by simpa [wf] using hw) ls' hls'
+    refine ⟨excludeMetricName (aggBySrc g s) true g, by simp only [analyse, List.mem_map]; exact ⟨s, hs, rfl⟩, fun n hn => ?_⟩
+    have hn' := List.mem_filter.mp hn
+    have hg : n ∈ g := by simpa using hn'.2
+    refine canHave_excludeMetricName true g (canHave_aggBySrc g (hacc n hn'.1) hg) ?_
+    by_cases hname : n = nameL
+    · exact Or.inr ⟨rfl, hname ▸ hg⟩
+    · exact Or.inl hname
+  | aggWithout g e ih =>
+    intro hw ls h
+    simp only [possible, List.mem_map] at h
+    obtain ⟨ls', hls', rfl⟩ := h
+    obtain ⟨s, hs, hacc⟩ := ih (by simpa [wf] using hw) ls' hls'
+    refine ⟨excludeMetricName (excludeLabel s g) false g, by simp only [analyse, List.mem_map]; exact ⟨s, hs, rfl⟩, fun n hn => ?_⟩
+    have hn' := List.mem_filter.mp hn
+    have hcond : n ∉ g ∧ n ≠ nameL := by simpa using hn'.2
+    exact canHave_excludeMetricName false g (canHave_excludeLabel (hacc n hn'.1) hcond.1) (Or.inl hcond.2)
+  | topk e ih =>
+    intro hw ls h
+    exact ih (by simpa [wf] using hw) ls (by simpa [possible] using h)
+  | countValuesBy g v e ih =>
+    intro hw ls h
+    simp only [wf, Bool.and_eq_true, bne_iff_ne, ne_eq] at hw
+    simp only [possible, List.mem_map] at h
+    obtain ⟨ls', hls', rfl⟩ := h
+    obtain ⟨s, hs, hacc⟩ := ih hw.2 ls' hls'
+    refine ⟨excludeMetricName (guaranteeLabel (includeLabel (aggBySrc g s) [v]) [v]) true g,
+      by simp only [analyse, List.mem_map]; exact ⟨s, hs, rfl⟩, fun n hn => ?_⟩
+    rcases List.mem_cons.mp hn with rfl | hn'
+    · exact canHave_excludeMetricName true g (canHave_guaranteeLabel (Or.inr (by simp))) (Or.inl hw.1)
+    · have hn'' := List.mem_filter.mp hn'
+      have hg : n ∈ g := by simpa using hn''.2
+      refine canHave_excludeMetricName true g
+        (canHave_guaranteeLabel (Or.inl (canHave_includeLabel (Or.inl (canHave_aggBySrc g (hacc n hn''.1) hg))))) ?_
+      by_cases hname : n = nameL
+      · exact Or.inr ⟨rfl, hname ▸ hg⟩
+      · exact Or.inl hname
+  | func e ih =>
+    intro hw ls h
+    obtain ⟨ls', hls', hsub⟩ := mem_withOrWithoutName (by simpa [possible] using h)
+    obtain ⟨s, hs, hacc⟩ := ih (by simpa [wf] using hw) ls' hls'
+    exact ⟨reguarantee s, by simp only [analyse, List.mem_map]; exact ⟨s, hs, rfl⟩, fun n hn => canHave_reguarantee (hacc n (hsub n hn))⟩
+  | labelReplace dst e ih =>
+    intro hw ls h
+    simp only [possible, List.mem_flatMap] at h
+    obtain ⟨ls', hls', hmem⟩ := h
+    obtain ⟨s, hs, hacc⟩ := ih (by simpa [wf] using hw) ls' hls'
+    refine ⟨guaranteeLabel s [dst], by simp only [analyse, List.mem_map]; exact ⟨s, hs, rfl⟩, fun n hn => ?_⟩
+    simp only [List.mem_cons, List.not_mem_nil, or_false] at hmem
+    rcases hmem with rfl | rfl | rfl
+    · exact canHave_guaranteeLabel (Or.inl (hacc n hn))
+    · rcases List.mem_cons.mp hn with rfl | hn'
+      · exact canHave_guaranteeLabel (Or.inr (by simp))
+      · exact canHave_guaranteeLabel (Or.inl (hacc n hn'))
+    · exact canHave_guaranteeLabel (Or.inl (hacc n (List.mem_filter.mp hn).1))
+  | absent ms =>
+    intro _ ls h
+    simp only [possible] at h
+    refine ⟨absentSrc ms, by simp [analyse], fun n hn => ?_⟩
+    have hin : n ∈ eqLabels ms := mem_subsets _ ls h n hn
+    unfold absentSrc
+    apply absent_fold_canHave _ _ (fun _ _ => trivial)
+    simp only [eqLabels, List.mem_map, List.mem_filter] at hin
+    obtain ⟨m, ⟨hm, hk⟩, rfl⟩ := hin
+    rw [mem_appendTo]
+    right
+    simp only [List.mem_map, List.mem_filter]
+    exact ⟨m, ⟨hm, by simp at hk; simp [hk]⟩, rfl⟩
+  | vec =>
+    intro _ ls h
+    simp only [possible, List.mem_singleton] at h
+    subst h
+    exact ⟨vecSrc, by simp [analyse], fun n hn => by simp at hn⟩
+  | binOn m l r ihl _ =>
+    intro hw ls h
+    simp only [wf, Bool.and_eq_true] at hw
+    obtain ⟨ls', hls', hsub⟩ := mem_withOrWithoutName (by simpa [possible] using h)
+    simp only [List.mem_map] at hls'
+    obtain ⟨a, ha, rfl⟩ := hls'
+    obtain ⟨s, hs, hacc⟩ := ihl hw.1 a ha
+    refine ⟨restrictTo { includeMatching s m with fixed := true } m, by simp only [analyse, List.mem_map]; exact ⟨s, hs, rfl⟩, fun n hn => ?_⟩
+    have hn' := List.mem_filter.mp (hsub n hn)
+    have hm : n ∈ m := by simpa using hn'.2
+    have him := canHave_includeMatching (s := s) m (hacc n hn'.1)
+    simp only [CanHave, restrictTo, List.mem_filter]
+    exact ⟨him.1.1, Or.inl ⟨him.2 hm, hn'.2⟩⟩
+  | binIgn m l r ihl _ =>
+    intro hw ls h
+    simp only [wf, Bool.and_eq_true] at hw
+    obtain ⟨ls', hls', hsub⟩ := mem_withOrWithoutName (by simpa [possible] using h)
+    simp only [List.mem_map] at hls'
+    obtain ⟨a, ha, rfl⟩ := hls'
+    obtain ⟨s, hs, hacc⟩ := ihl hw.1 a ha
+    refine ⟨excludeLabel s m, by simp only [analyse, List.mem_map]; exact ⟨s, hs, rfl⟩, fun n hn => ?_⟩
+    have hn' := List.mem_filter.mp (hsub n hn)
+    exact canHave_excludeLabel (hacc n hn'.1) (by simpa using hn'.2)
+  | groupLeft on m incl l r ihl _ =>
+    intro hw ls h
+    simp only [wf, Bool.and_eq_true] at hw
+    obtain ⟨ls', hls', hsub⟩ := mem_withOrWithoutName (by simpa [possible] using h)
+    simp only [List.mem_flatMap, List.mem_map] at hls'
+    obtain ⟨a, ha, b, _, rfl⟩ := hls'
+    obtain ⟨s, hs, hacc⟩ := ihl hw.1 a ha
+    refine ⟨if on then includeMatching (includeLabel s incl) m else includeLabel s incl,
+      by simp only [analyse, List.mem_map]; exact ⟨s, hs, rfl⟩, fun n hn => ?_⟩
+    have hbase : CanHave (includeLabel s incl) n := by
+      rcases List.mem_append.mp (hsub n hn) with h1 | h1
+      · exact canHave_includeLabel (Or.inl (hacc n (List.mem_filter.mp h1).1))
+      · exact canHave_includeLabel (Or.inr (by simpa using (List.mem_filter.mp h1).2))
+    cases on with
+    | true => exact (canHave_includeMatching m hbase).1
+    | false => exact hbase
+  | groupRight on m incl l r _ ihr =>
+    intro hw ls h
+    simp only [wf, Bool.and_eq_true] at hw
+    obtain ⟨ls', hls', hsub⟩ := mem_withOrWithoutName (by simpa [possible] using h)
+    simp only [List.mem_flatMap, List.mem_map] at hls'
+    obtain ⟨a, ha, b, _, rfl⟩ := hls'
+    obtain ⟨s, hs, hacc⟩ := ihr hw.2 a ha
+    refine ⟨if on then includeMatching (includeLabel s incl) m else includeLabel s incl,
+      by simp only [analyse, List.mem_map]; exact ⟨s, hs, rfl⟩, fun n hn => ?_⟩
+    have hbase : CanHave (includeLabel s incl) n := by
+      rcases List.mem_append.mp (hsub n hn) with h1 | h1
+      · exact canHave_includeLabel (Or.inl (hacc n (List.mem_filter.mp h1).1))
+      · exact canHave_includeLabel (Or.inr (by simpa using (List.mem_filter.mp h1).2))
+    cases on with
+    | true => exact (canHave_includeMatching m hbase).1
+    | false => exact hbase
+  | setAnd on m l r ihl _ =>
+    intro hw ls h
+    simp only [wf, Bool.and_eq_true] at hw
+    obtain ⟨s, hs, hacc⟩ := ihl hw.1 ls (by simpa [possible] using h)
+    refine ⟨if on then includeMatching s m else s, by simp only [analyse, List.mem_map]; exact ⟨s, hs, rfl⟩, fun n hn => ?_⟩
+    cases on with
+    | true => exact (canHave_includeMatching m (hacc n hn)).1
+    | false => exact hacc n hn
+  | setOr on m l r ihl ihr =>
+    intro hw ls h
+    simp only [wf, Bool.and_eq_true] at hw
+    simp only [possible, List.mem_append] at h
+    rcases h with h | h
+    · obtain ⟨s, hs, hacc⟩ := ihl hw.1 ls h
+      refine ⟨if on then includeMatching s m else s, by simp only [analyse, List.mem_append, List.mem_map]; exact Or.inl ⟨s, hs, rfl⟩, fun n hn => ?_⟩
+      cases on with
+      | true => exact (canHave_includeMatching m (hacc n hn)).1
+      | false => exact hacc n hn
+    · obtain ⟨s, hs, hacc⟩ := ihr hw.2 ls h
+      exact ⟨s, by simp only [analyse, List.mem_append]; exact Or.inr hs, hacc⟩
+  | withScalar e ih =>
+    intro hw ls h
+    obtain ⟨ls', hls', hsub⟩ := mem_withOrWithoutName (by simpa [possible] using h)
+    obtain ⟨s, hs, hacc⟩ := ih (by simpa [wf] using hw) ls' hls'
+    exact ⟨s, by simpa [analyse] using hs, accounts_subset hacc hsub⟩
+
+/-- **C04, single result branch**: when pint derives one source for the query and decides that label `n` cannot be on
+it — the condition under which alerts/template reports "template uses non-existent label" — no series Prometheus can
+return for the query, whatever data is stored, carries `n`. -/
+theorem C04_single_branch (U : LS) (e : Expr) (hw : wf e = true) (s : Src) (h1 : analyse e = [s]) (n : String)
+    (hn : canHave s n = false) : ∀ ls ∈ possible U e, n ∉ ls := by
+  intro ls hls hmem
+  obtain ⟨s', hs', hacc⟩ := analyse_sound U e hw ls hls
+  rw [h1] at hs'
+  have : s' = s := by simpa using hs'
+  subst this
+  have := (canHave_iff s' n).mpr (hacc n hmem)
+  rw [hn] at this
+  exact absurd this (by simp)
+
+/-- the general clause, up to liveness: every returned series is consistent with at least one derived branch -/
+theorem C04_some_branch (U : LS) (e : Expr) (hw : wf e = true) (ls : LS) (h : ls ∈ possible U e) :
+    (analyse e).any (fun s => accounts s ls) = true := by
+  obtain ⟨s, hs, hacc⟩ := analyse_sound U e hw ls h
+  exact List.any_eq_true.mpr ⟨s, hs, (accounts_iff s ls).mpr hacc⟩
+
+/-! non-vacuity: `sum by (job) (up{env="prod"})` over labels job, env, instance -/
+example :
+    let e := Expr.aggBy ["job"] (.sel [{ label := "env", kind := .eq }])
+    (possible ["job", "env", "instance"] e).length = 4 ∧ (analyse e).map (fun s => (canHave s "job", canHave s "instance", canHave s "env")) = [(true, false, false)] := by
+  decide
+
+/-- what the fix 0da997e was about: `sum by (__name__) (m)` keeps the metric name -/
+example : (analyse (.aggBy [nameL] (.sel []))).map (fun s => canHave s nameL) = [true] ∧
+    [nameL] ∈ possible [] (.aggBy [nameL] (.sel [])) := by decide
+
 end Pint.Props.C04
